@@ -213,14 +213,16 @@ def fit_case(case):
         k_ = transport.pick((name, sorted(spec.items(), key=str), shape))
         try:
             cp_ = transport.roundtrip(model, k_)
-            ok_ = np.array_equal(cp_.predict(Xin), labs) and np.array_equal(cp_.predict_proba(Xin), P) and cp_.score(Xin, y) == model.score(Xin, y) \
+            # (a copy may lay its arrays out differently: the last bit of a matrix product may differ, nothing more)
+            ok_ = np.array_equal(cp_.predict(Xin), labs) and np.allclose(cp_.predict_proba(Xin), P, rtol=1e-12, atol=1e-14) \
+                and abs(cp_.score(Xin, y) - model.score(Xin, y)) <= 1e-12 * max(1.0, abs(model.score(Xin, y))) + (1e-9 if expect["dist"] == "mmd" else 0.0) \
                 and repr(cp_.get_params(deep=False).keys()) == repr(model.get_params(deep=False).keys())
             detail_ = {"transport": k_, "stage": "fitted copy"}
             if ok_ and spec.get("random_state", 0) is not None:
                 fresh_, _, _ = C.build(name, spec, Xeff, seed)
                 cp2_ = transport.roundtrip(fresh_, k_)
                 cp2_.fit(Xin, y)
-                ok_ = np.array_equal(cp2_.labels_, labs) and np.array_equal(cp2_.predict_proba(Xin), P)
+                ok_ = np.array_equal(cp2_.labels_, labs) and np.allclose(cp2_.predict_proba(Xin), P, rtol=1e-9, atol=1e-12)
                 detail_ = {"transport": k_, "stage": "unfitted copy, then fit"}
         except Exception as e:  # noqa
             ok_, detail_ = False, {"transport": k_, "error": repr(e)[:300]}
